@@ -39,6 +39,7 @@ type plan struct {
 	Tape    []uint64
 	During  []model.Point // written while the backup's snapshot is in flight (may be nil)
 	Cuts    int
+	Flush   int // 1: the fsync of the snapshot file the backup forces fails; 2: snapshots are disabled on the shard
 	ExportA int64
 	ExportB int64
 }
@@ -50,6 +51,9 @@ func genPlan(t *rapid.T) interface{} {
 		p.During = storesim.GenBatch(t, 4, "during")
 	}
 	p.Cuts = rapid.IntRange(0, 6).Draw(t, "cuts")
+	if f := rapid.IntRange(0, 5).Draw(t, "flushfault"); f <= 2 {
+		p.Flush = f
+	}
 	a, b := storesim.GenTime(t, "exp.a"), storesim.GenTime(t, "exp.b")
 	if a > b {
 		a, b = b, a
@@ -103,6 +107,21 @@ func compareStore(run *core.Run, what string, sim *storesim.Sim, id uint64, want
 	return true
 }
 
+func restoreTo(run *core.Run, root, index string, id uint64, data []byte) (*storesim.Sim, error) {
+	os.RemoveAll(root)
+	dst, err := storesim.Open(root, storesim.Opts{Index: index})
+	if err != nil {
+		run.Fail("harness-error", "", "open destination: %v", err)
+		return nil, nil
+	}
+	if err := dst.CreateShard(id); err != nil {
+		dst.Close()
+		run.Fail("harness-error", "", "create destination shard: %v", err)
+		return nil, nil
+	}
+	return dst, dst.Store.RestoreShard(id, bytes.NewReader(data))
+}
+
 func exec(run *core.Run, pl interface{}) {
 	p := pl.(*plan)
 	tape := &storesim.Tape{V: p.Tape}
@@ -128,6 +147,51 @@ func exec(run *core.Run, pl interface{}) {
 			})
 		}
 		var buf bytes.Buffer
+		// The backup first flushes the cache to a file. When that flush fails
+		// the backup must fail too, or else contain the cached points some
+		// other way: a "successful" backup of the files alone is a copy that
+		// silently lacks every point not yet snapshotted.
+		if p.Flush != 0 && p.During == nil {
+			switch p.Flush {
+			case 1:
+				h.FailNextFsync()
+			case 2:
+				src.Store.Shard(id).SetCompactionsEnabled(false)
+			}
+			err := src.Store.BackupShard(id, time.Time{}, &buf)
+			fired := p.Flush == 2 || !h.FsyncFaultPending()
+			h.ClearFaults()
+			if p.Flush == 2 {
+				src.Store.Shard(id).SetCompactionsEnabled(true)
+			}
+			if err != nil {
+				run.Logf("backup with failing flush refused: %v", err)
+				run.Probe("backup-refused-on-flush-failure")
+				buf.Reset()
+			} else if fired {
+				run.Probe("backup-succeeded-despite-flush-fault")
+				dst, rerr := restoreTo(run, filepath.Join(run.Scratch, "dstf"), p.H.Index, id, buf.Bytes())
+				if dst == nil {
+					return
+				}
+				if rerr != nil {
+					dst.Close()
+					run.Fail("restore-failed", "", "RestoreShard of a backup reported complete (taken while the cache flush failed): %v", rerr)
+					return
+				}
+				ok := compareStore(run, "destination restored from a backup taken while the cache flush failed (the backup reported success)", dst, id, before, nil)
+				dst.Close()
+				if !ok {
+					return
+				}
+				buf.Reset()
+			} else {
+				buf.Reset()
+			}
+			if !compareStore(run, "source after the backup with a failing flush", src, id, h.Models[0], nil) {
+				return
+			}
+		}
 		err := src.Store.BackupShard(id, time.Time{}, &buf)
 		verifhook.SetYield(nil)
 		if err != nil {
